@@ -243,7 +243,15 @@ struct Conv {
             return std::move(o);
         }
         if (auto * X = dyn_cast<ForStmt>(S)) return json::Object{{"k", "loop"}, {"kind", "for"}, {"ln", line(X->getForLoc())}, {"init", stmt(X->getInit())}, {"cond", expr(X->getCond())}, {"inc", expr(X->getInc())}, {"body", stmt(X->getBody())}};
-        if (auto * X = dyn_cast<CXXForRangeStmt>(S)) return json::Object{{"k", "loop"}, {"kind", "range"}, {"ln", line(X->getForLoc())}, {"var", X->getLoopVariable()->getNameAsString()}, {"vt", ty(X->getLoopVariable()->getType())}, {"range", expr(X->getRangeInit())}, {"rt", ty(X->getRangeInit()->getType().getCanonicalType())}, {"body", stmt(X->getBody())}};
+        if (auto * X = dyn_cast<CXXForRangeStmt>(S)) {
+            json::Object o{{"k", "loop"}, {"kind", "range"}, {"ln", line(X->getForLoc())}, {"var", X->getLoopVariable()->getNameAsString()}, {"vt", ty(X->getLoopVariable()->getType())}, {"range", expr(X->getRangeInit())}, {"rt", ty(X->getRangeInit()->getType().getCanonicalType())}, {"body", stmt(X->getBody())}};
+            if (auto * DD = dyn_cast<DecompositionDecl>(X->getLoopVariable())) {
+                json::Array bs;
+                for (auto * B : DD->bindings()) bs.push_back(B->getNameAsString());
+                o["bind"] = std::move(bs);
+            }
+            return std::move(o);
+        }
         if (auto * X = dyn_cast<SwitchStmt>(S)) return json::Object{{"k", "switch"}, {"ln", line(X->getSwitchLoc())}, {"cond", expr(X->getCond())}, {"body", stmt(X->getBody())}};
         if (auto * X = dyn_cast<CaseStmt>(S)) return json::Object{{"k", "case"}, {"ln", line(X->getCaseLoc())}, {"v", expr(X->getLHS())}, {"body", stmt(X->getSubStmt())}};
         if (auto * X = dyn_cast<DefaultStmt>(S)) return json::Object{{"k", "default"}, {"ln", line(X->getDefaultLoc())}, {"body", stmt(X->getSubStmt())}};
